@@ -30,6 +30,9 @@ CLAIMED = {
  "C10": ("Hypothesis-generated single fits and multi-fits with fix/release histories and constraints vs. documented ndf/gof/probability formulas (numpy/scipy reference)",
          "Generated-input search: ndf is compared exactly with N_data + constraint rows - parameters + fixed after every generated fix/release/do_fit step; goodness of fit with an independent evaluation of cost minus saturated cost per cost class (chi2 incl. constraint cost and excluding the determinant term, pointwise, no-errors, Poisson/Gaussian NLL and ratios, Gauss approximation, None for unbinned); chi2 probability with scipy.stats.chi2.sf of the determinant-free chi2; result dict consistent; MultiFits of 1-3 mixed members with shared parameter names and constraints on both levels.",
          "Trusts kverif/fitspec.py Ref and scipy.stats; PD covariance with cond<=1e6 (else discarded); x-projected covariances carry a first-order bound for kafe2's finite-difference slope.", "DESIGN.md §4 C10"),
+ "C05": ("Hypothesis-generated linear problems (xy basis-function models, indexed linear maps, two-member multi-fits) fitted with both backends vs. closed-form GLS",
+         "Generated-input search: do_fit() results (values, covariance with zero rows/columns for fixed parameters, errors, correlations, chi2, cost = chi2 + ln det V, asymmetric errors = +-sigma, member sub-blocks of multi-fits) are compared with the closed-form generalised-least-squares solution in which constraints are extra measurement rows and fixed parameters deleted columns; starts up to 10 sigma away; iminuit and scipy.",
+         "Trusts kverif/fitspec.py Ref.gls (numpy); MINIMIZER tolerances 0.03 sigma / 1 % covariance / 1e-3 chi2 (>= 5x measured worst case, << effect of a real defect); cond(V)<=1e6, cond(H)<=1e8.", "DESIGN.md §4 C05"),
 }
 NOT_YET = "check not built yet in this session (work in progress; see DESIGN.md §10 build order)"
 
